@@ -332,3 +332,38 @@ def run_kani(unit, timeout=900, playback=False):
                 'what': unit.get('what'), 'mode': unit.get('mode', 'always'), 'counterexample': cex}
     finally:
         shutil.rmtree(scratch, ignore_errors=True)
+
+
+# ---- OS-request frame (C14 / C19) ---------------------------------------------------------------------------------------
+# The kernel model of spec_protected.rs is monotone (facts "request X was issued / granted"): a contract cannot say that a
+# function issues NO OTHER request. The frame condition "this function issues exactly these kinds of OS requests" is therefore
+# checked mechanically on the function text: the multiset of calls to the request wrappers / libc functions below is recorded
+# in effects_baseline.json (tools/gen_baseline.py) and compared on every run; a difference makes the unit UNDECIDED (then the
+# OS-inspecting witness search decides), never a violation by itself.
+OS_EFFECT_NAMES = ['dryoc_mlock', 'dryoc_munlock', 'dryoc_mprotect_readonly', 'dryoc_mprotect_readwrite', 'dryoc_mprotect_noaccess',
+                   'mlock', 'munlock', 'mprotect', 'mprotect_readonly', 'mprotect_readwrite', 'mprotect_noaccess', 'posix_memalign',
+                   'free', 'c_mlock', 'c_munlock', 'c_mprotect', 'madvise', 'VirtualLock', 'VirtualUnlock', 'VirtualProtect', 'VirtualAlloc', 'VirtualFree']
+
+
+def os_effects(text):
+    """{name: count} of calls to OS-request functions in a function's text (comments and strings removed)."""
+    t = re.sub(r'//[^\n]*', '', text)
+    t = re.sub(r'/\*.*?\*/', '', t, flags=re.S)
+    t = re.sub(r'"(?:[^"\\]|\\.)*"', '""', t)
+    out = {}
+    for m in re.finditer(r'(?<![A-Za-z0-9_])([A-Za-z_][A-Za-z0-9_]*)\s*(?:::<[^>]*>)?\s*\(', t):
+        n = m.group(1)
+        if n in OS_EFFECT_NAMES:
+            # skip the function's own header `fn name(`
+            pre = t[max(0, m.start() - 4):m.start()]
+            if pre.rstrip().endswith('fn'):
+                continue
+            out[n] = out.get(n, 0) + 1
+    return out
+
+
+def unit_orig_text(u, repo=None):
+    a, z = u['orig_lines']
+    with open(os.path.join(repo or REPO, u['file'])) as f:
+        lines = f.read().split('\n')
+    return '\n'.join(lines[a - 1:z])
